@@ -612,6 +612,8 @@ pub struct World {
     pub twin: Option<(usize, usize)>,
     pub twin_checks: u64,
     pub twin_excused: u64,
+    /// when set: Display and Debug of every error and Debug of every processing result (C14)
+    pub leak_sink: Option<Vec<String>>,
 }
 
 pub fn relay_url(n: u8) -> RelayUrl {
@@ -783,6 +785,7 @@ impl World {
             twin: None,
             twin_checks: 0,
             twin_excused: 0,
+            leak_sink: None,
         };
         // deliver the initial welcomes
         for (k, rumor) in res.welcome_rumors.iter().enumerate() {
@@ -865,6 +868,13 @@ impl World {
         h.update(self.wrapper_counter.to_be_bytes());
         let d: [u8; 32] = h.finalize().into();
         EventId::from_byte_array(d)
+    }
+
+    pub fn sink<E: std::fmt::Display + std::fmt::Debug>(&mut self, e: &E) {
+        if let Some(s) = self.leak_sink.as_mut() {
+            s.push(format!("{e}"));
+            s.push(format!("{e:?}"));
+        }
     }
 
     pub fn count(&mut self, key: &str) {
@@ -1214,6 +1224,7 @@ impl World {
                         self.after_commit_created(m, idx, *apply, obs)?;
                     }
                     Err(e) => {
+                        self.sink(&e);
                         self.note(format!("c{m} self_update refused: {e}"));
                         self.count("op:commit-refused");
                     }
@@ -1259,10 +1270,19 @@ impl World {
                         what = format!("rotate-id-{n}");
                     }
                     DataChange::Image(n) => {
-                        upd.image_hash = Some(Some([*n; 32]));
-                        upd.image_key = Some(Some([n.wrapping_add(1); 32]));
-                        upd.image_nonce = Some(Some([n.wrapping_add(2); 12]));
-                        upd.image_upload_key = Some(Some([n.wrapping_add(3); 32]));
+                        let derive = |tag: &str| -> [u8; 32] {
+                            let mut h = Sha256::new();
+                            h.update(tag.as_bytes());
+                            h.update([*n]);
+                            h.update(self.dir.0.to_string_lossy().as_bytes());
+                            h.finalize().into()
+                        };
+                        let mut nonce = [0u8; 12];
+                        nonce.copy_from_slice(&derive("nonce")[..12]);
+                        upd.image_hash = Some(Some(derive("hash")));
+                        upd.image_key = Some(Some(derive("key")));
+                        upd.image_nonce = Some(Some(nonce));
+                        upd.image_upload_key = Some(Some(derive("upload")));
                         what = format!("image-{n}");
                     }
                     DataChange::ClearImage => {
@@ -1328,6 +1348,7 @@ impl World {
                         self.after_commit_created(m, idx, *apply, obs)?;
                     }
                     Err(e) => {
+                        self.sink(&e);
                         self.note(format!("c{m} update_group_data refused: {e}"));
                         self.count("op:commit-refused");
                     }
@@ -1374,6 +1395,7 @@ impl World {
                         self.after_commit_created(m, idx, *apply, obs)?;
                     }
                     Err(e) => {
+                        self.sink(&e);
                         self.note(format!("c{m} add_members refused: {e}"));
                         self.count("op:commit-refused");
                     }
@@ -1427,6 +1449,7 @@ impl World {
                         self.after_commit_created(m, idx, *apply, obs)?;
                     }
                     Err(e) => {
+                        self.sink(&e);
                         self.note(format!("c{m} remove_members refused: {e}"));
                         self.count("op:commit-refused");
                     }
@@ -1460,6 +1483,7 @@ impl World {
                         self.count("op:leave_group");
                     }
                     Err(e) => {
+                        self.sink(&e);
                         self.note(format!("c{m} leave_group refused: {e}"));
                     }
                 }
@@ -2167,6 +2191,16 @@ impl World {
         }
         mdk_core::verif::set_wrapper_created_at(None);
         let mut emitted: Option<UpdateGroupResult> = None;
+        if let Some(sink) = self.leak_sink.as_mut() {
+            match &r {
+                Ok(Ok(res)) => sink.push(format!("{res:?}")),
+                Ok(Err(e)) => {
+                    sink.push(format!("{e}"));
+                    sink.push(format!("{e:?}"));
+                }
+                Err(_) => {}
+            }
+        }
         let outcome = match r {
             Ok(Ok(res)) => match res {
                 MessageProcessingResult::ApplicationMessage(msg) => Outcome::App(msg.id.to_hex()),
